@@ -283,6 +283,12 @@ class Screen(BaseScreen, RealTerminal):
 
         self._wait_for_input_ready(self._next_timeout)
         keys, raw = self.parse_input(None, None, self.get_available_raw_input())
+        # no event loop to set an alarm: wait here (complete_wait) for the rest of an unfinished sequence, else decode it as it stands
+        while self._partial_codes:
+            ready = self._wait_for_input_ready(self.complete_wait)
+            more_keys, more_raw = self.parse_input(None, None, self.get_available_raw_input(), wait_for_more=bool(ready))
+            keys += more_keys
+            raw += more_raw
 
         # Avoid pegging CPU at 100% when slowly resizing
         if keys == ["window resize"] and self.prev_input_resize:
